@@ -12,6 +12,7 @@ CONSTANTS
   MaxPush = 0
   Faults = {}
   RespShapes <- RS_ok
+  Abandon = FALSE
   MaxArr = 3
   ArrMenu = {"resp"}
 INIT Init
